@@ -583,7 +583,7 @@ def run(ctx, only=None):
         cases.append(("file", h))
         cases.append(("memory", [op for op in h if op[0] != "savefail"]))
     rng = ctx.rng.fork("histories")
-    for i in range(ctx.scale(150, 2500)):
+    for i in range(ctx.scale(500, 5000)):
         kind = "file" if i % 3 else "memory"
         cases.append((kind, gen_history(rng, kind, rng.randrange(3, 11))))
     run_histories(ctx, cases)
